@@ -20,6 +20,7 @@ RESP = [
     [('0', 0x30)],
     [('C', 0x81)],
     [('N', 0x20), ('W', 0x85)],
+    [('M', 0x90), ('N', 0x20)],          # 'M': arbitrary-address-capable, lost its preferred address 0x90, operational on 0x91
 ]
 
 
@@ -37,7 +38,7 @@ class Setup:
         self.req_st.ecu.add_ca(controller_application=self.req_ca)
         self.cas = []
         for i, (state, addr) in enumerate(RESP[ri]):
-            ca = CA(j1939.Name(identity_number=0x100 + i, manufacturer_code=0x111), addr)
+            ca = CA(j1939.Name(identity_number=0x100 + i, manufacturer_code=0x111, arbitrary_address_capable=int(state == 'M')), addr)
             self.rsp_st.ecu.add_ca(controller_application=ca)
             for k in range(ncb):
                 ca.subscribe_request(lambda sa, da, pgn, i=i, k=k: self.calls.append((('R', i), k, sa, da, pgn)))
@@ -51,7 +52,7 @@ class Setup:
             self.req_ca.start(claim_delay=0.0)
         oca.start(claim_delay=0.0)
         for i, (state, addr) in enumerate(RESP[ri]):
-            if state in ('N', 'C', 'W'):
+            if state in ('N', 'C', 'W', 'M'):
                 self.cas[i].start(claim_delay=0.0)
         w.run_for(0.002)
         g = bus.ghost_node()
@@ -59,6 +60,14 @@ class Setup:
             if state == 'C':
                 g.send((6 << 26) | (0xEE << 16) | (0xFF << 8) | addr, bytes([1, 0, 0, 0, 0, 0, 0, 0]))
         w.run_for(0.002)
+        if any(s == 'M' for s, _a in RESP[ri]):
+            w.run_for(0.3)                       # operational on the preferred address
+            for i, (state, addr) in enumerate(RESP[ri]):
+                if state == 'M':
+                    g.send((6 << 26) | (0xEE << 16) | (0xFF << 8) | addr, bytes([1, 0, 0, 0, 0, 0, 0, 0]))
+            w.run_for(1.0)                       # re-claimed the next address and became operational there
+            self.moved_ok = all(ca.state == NORMAL and ca.device_address == a + 1
+                                for ca, (s, a) in zip(self.cas, RESP[ri]) if s == 'M')
         self.has_wait = any(s == 'W' for s, _a in RESP[ri])
         self.ri = ri
         self.responders = [(('R', i), ca) for i, ca in enumerate(self.cas)] + [(('O', 0), oca)]
@@ -70,6 +79,7 @@ class Setup:
             f = {'identity_number': idn}
             if key[0] == 'R':
                 f['manufacturer_code'] = 0x111
+                f['arbitrary_address_capable'] = int(RESP[ri][key[1]][0] == 'M')
             self.names[key] = R.name_bytes(R.name_value(f))
 
     def close(self):
@@ -152,6 +162,10 @@ def worker(item):
     acc = Acc()
     sc = {'kind': kind, 'responder_config': ri, 'requester_has_address': has_addr}
     s = Setup(ri, has_addr)
+    if getattr(s, 'moved_ok', True) is False:
+        acc.violation("HARNESS: the arbitrary-address-capable responder did not move to the next address", sc)
+        s.close()
+        return acc
     try:
         n = 0
         for pgn in pgns:
